@@ -61,8 +61,9 @@ def run_world(world, idx=0, timeout=300, hashseed='0', extra_env=None, keep=Fals
     # directory to the entry point (run_internal remembers where it was started)
     args = ['--path', '.' if world.get('relpath') else d, '--tests-pattern', '^%s%s$' % (mod, r'(_b\d+|_dd?)?' if (world.get('broken') or world.get('doctests')) else '')] + list(world.get('options', []))
     if world.get('select_none'):
-        # filters that leave nothing to run (-t / --layer matching nothing): the model is handed the world without tests
-        args += {'-t': ['-t', 'zz_no_such_test'], '--layer': ['--layer', 'zz_no_such_layer']}[world['select_none']]
+        # filters that leave nothing to run (-t / --layer matching nothing, --only-level 2 where every test has level 1): the model is handed the world without tests
+        args += {'-t': ['-t', 'zz_no_such_test'], '--layer': ['--layer', 'zz_no_such_layer'],
+                 '--only-level': ['--only-level', '2']}[world['select_none']]
     spec = {'dir': d, 'args': args, 'defaults': world.get('defaults', [])}
     if 'script_parts' in world:
         spec['script_parts'] = world['script_parts']
